@@ -45,6 +45,26 @@ def has_duplicates(d):
     return False
 
 
+def has_py_duplicates(d):
+    """some array holds two items that are equal for Python (0 == -0.0 == False, 1 == 1.0 == True): a set built from it is smaller"""
+    def freeze(x):
+        if type(x) is list:
+            return ("l", tuple(freeze(e) for e in x))
+        if type(x) is dict:
+            return ("d", frozenset((k, freeze(v)) for k, v in x.items()))
+        return x
+    if type(d) is list:
+        try:
+            if len({freeze(x) for x in d}) != len(d):
+                return True
+        except TypeError:
+            return True
+        return any(has_py_duplicates(x) for x in d)
+    if type(d) is dict:
+        return any(has_py_duplicates(x) for x in d.values())
+    return False
+
+
 def relax_flattened(schema):
     """explanatory defect model for F22: branches of the allOf of a flattened object stay closed
     (additionalProperties: false) although unevaluatedProperties: false already closes the whole"""
